@@ -153,7 +153,8 @@ impl HashCache {
         // modification time, if the file system keeps the timestamps with a resolution
         // of 1 or 2 seconds (a timestamp without a fractional part). The entry would then
         // be taken for valid although the contents are different, so don't store it yet.
-        if is_racy(modified, SystemTime::now()) {
+        // What counts is the time the metadata were read at, the data were read after that.
+        if is_racy(modified, file.read_at()) {
             return Ok(());
         }
         let value = CachedFileInfo {
